@@ -527,7 +527,7 @@ int main(int argc, char **argv)
 		return vh_finish();
 	}
 	hostile_time = !strcmp(mode_tag, "c02");
-	no_atomic = hostile_time;
+	no_atomic = false; /* interrupt-context requests are one of the "other means" of C02 as well */
 	long long n = vh_opt.cases ? vh_opt.cases : (vh_opt.thorough ? 30000000 : 300000);
 	for (long long c = vh_opt.proc; c < n; c += vh_opt.nproc) {
 		if (vh_opt.only_case >= 0 && c != vh_opt.only_case)
